@@ -647,6 +647,10 @@ impl Gen {
         } else if !funded {
             // initial deposit
             let scale = self.rng.range(0, 9) as u32;
+            // stableswap pools: half of the first deposits put in the same number of whole tokens
+            // of every asset (a pool at its peg)
+            let pegged = matches!(pi.pool_type, PoolType::StableSwap { .. }) && self.rng.chance(1, 2);
+            let peg_div = *self.rng.pick(&[1u128, 1, 2, 3, 10, 1000]);
             for (i, a) in pi.assets.iter().enumerate() {
                 let d = pi.asset_decimals[i].min(18) as u32;
                 let b = bal(&c.obs.bal, &sender, &a.denom);
@@ -656,6 +660,20 @@ impl Gen {
                     1 => self.rng.log_u128(10u128.pow(d + 9)),
                     _ => whole.saturating_mul(10u128.pow(scale)) / *self.rng.pick(&[1u128, 1, 1, 2, 3, 10, 1000]),
                 };
+                if pegged {
+                    // the same number of whole tokens (in thousandths) of every asset, within what the
+                    // sender holds of each
+                    let want_milli = 1000u128.saturating_mul(10u128.pow(scale)) / peg_div;
+                    let mut cap_milli = want_milli;
+                    for (k, x) in pi.assets.iter().enumerate() {
+                        let wk = 10u128.pow(pi.asset_decimals[k].min(18) as u32);
+                        let bk = bal(&c.obs.bal, &sender, &x.denom);
+                        if bk > 0 {
+                            cap_milli = cap_milli.min(bk.saturating_mul(1000) / wk);
+                        }
+                    }
+                    amt = whole.saturating_mul(cap_milli.max(1)) / 1000;
+                }
                 amt = amt.max(1);
                 if b > 0 {
                     amt = amt.min(b);
